@@ -50,6 +50,20 @@ def seeded_table():
     return "\n".join(out)
 
 
+def revert_table():
+    rp = os.path.join(HERE, "mutants", "revert_results.json")
+    if not os.path.exists(rp):
+        return "(not run)"
+    res = json.load(open(rp))
+    out = ["| fix commit reverted | property | result of that property's quick check |", "|---|---|---|"]
+    for c, v in sorted(res.items(), key=lambda kv: (kv[1]["property"], kv[0])):
+        out.append("| `%s` | %s | %s |" % (c, v["property"], v["result"]))
+    n = sum(1 for v in res.values() if v["result"] == "re-detected")
+    out.append("")
+    out.append("%d of %d reverted fixes re-detected; the rest could not be reverted in isolation (later fixes touch the same lines)." % (n, len(res)))
+    return "\n".join(out)
+
+
 def notes():
     t = open(os.path.join(HERE, "NOTES.md"), encoding="utf-8").read()
     k = t.index("## False alarms corrected")
@@ -59,7 +73,7 @@ def notes():
 def main():
     p = os.path.join(HERE, "DESIGN.md")
     s = open(p, encoding="utf-8").read()
-    for key, fn in (("fixed-defects", fixed_table), ("mutants", mutant_table), ("seeded", seeded_table), ("notes", notes)):
+    for key, fn in (("fixed-defects", fixed_table), ("mutants", mutant_table), ("seeded", seeded_table), ("notes", notes), ("reverts", revert_table)):
         pat = re.compile(r"(<!-- BEGIN GENERATED: %s -->\n).*?(<!-- END GENERATED: %s -->)" % (key, key), re.S)
         if not pat.search(s):
             print("marker for %s not found" % key)
